@@ -321,8 +321,13 @@ fn count(q: &[u64], v: u64) -> u64 {
 }
 
 /// label of a draw (only used for signatures / statistics; the verdict is the Coq oracle's)
-fn classify(st: Strat, stakes: &[u64], out: &Option<Vec<u64>>, out2: &Option<Vec<u64>>, degenerate: bool) -> &'static str {
-    let Some(q) = out else { return if degenerate { "panic-degenerate-source" } else { "panic" } };
+/// A panic of the decaying sampler after it consumed at least MAX_TRIES_PER_SAMPLE random words in one call is its
+/// rejection loop giving up (documented in the crate, recorded as a known finding); any other panic is not.
+const REJECTION_BUDGET: u64 = 100_000;
+fn classify(st: Strat, stakes: &[u64], out: &Option<Vec<u64>>, out2: &Option<Vec<u64>>, degenerate: bool, used: u64) -> &'static str {
+    let Some(q) = out else {
+        return if degenerate { "panic-degenerate-source" } else if matches!(st, Strat::Decay(..)) && used >= REJECTION_BUDGET { "panic-rejection-budget-exhausted" } else { "panic" }
+    };
     let n = stakes.len() as u64;
     let total: u128 = stakes.iter().map(|s| *s as u128).sum();
     if q.len() as u64 != st.k() { return "wrong-length"; }
@@ -420,6 +425,9 @@ pub fn gen_c17(seed: u64, tier: Tier) -> CaseSet {
     for (stakes, strat) in pinned {
         plans.push(Plan { stakes, fam: "pinned", strat, draws: fair_draws(&mut rng, 3) });
     }
+    // FEASIBLE configuration (3 validators, 3 seats, one seat each) on which the decaying sampler's rejection loop
+    // gives up with a fair random source: the third seat can only go to the dust validator (known finding)
+    plans.push(Plan { stakes: vec![1 << 40, 1 << 40, 1], fam: "pinned", strat: Strat::Decay(1, 1, 3), draws: vec![(vec![], Tail::Split(0x9E37_79B9), false)] });
     // degenerate random sources / infeasible configurations: the rejection loops give up
     plans.push(Plan { stakes: vec![1, 1], fam: "pinned", strat: Strat::Decay(1, 1, 2), draws: vec![(vec![], Tail::Const(0), true)] });
     if thorough {
@@ -500,7 +508,7 @@ pub fn gen_c17(seed: u64, tier: Tier) -> CaseSet {
                 // a panicking DecayingAcceptanceSampler keeps its counters: rebuild
                 if o1.is_none() { b1 = mk(); }
                 if o2.is_none() { b2 = mk(); }
-                let class = classify(st, &p.stakes, &o1, &o2, *degenerate);
+                let class = classify(st, &p.stakes, &o1, &o2, *degenerate, r1.used);
                 *by_class.entry(format!("{}:draw:{}", st.name(), class)).or_default() += 1;
                 sigs.push((cid, di as u64 + 1, format!("{}:draw:{}", st.name(), class)));
                 stats.evaluations += 1;
@@ -578,7 +586,7 @@ pub fn gen_c17(seed: u64, tier: Tier) -> CaseSet {
                 _ => { clone = orig.clone_instance(); (None, None, None) }
             };
             stats.evaluations += 1;
-            let class = if *kind <= 1 && out.is_none() { "panic" }
+            let class = if *kind <= 1 && out.is_none() { if matches!(st, Strat::Decay(..)) && r0.used >= REJECTION_BUDGET { "panic-rejection-budget-exhausted" } else { "panic" } }
                 else if cl.as_ref().is_some_and(|c| *c != out) { "clone-differs" }
                 else if *kind == 1 && (stateless || clean) && fresh.as_ref().is_some_and(|f| *f != out) { "depends-on-instance-history" }
                 else { "ok" };
